@@ -18,7 +18,7 @@ use serde_json::{Value, json};
 use square::*;
 
 const RULE: &str = "A: original squares of width k in {1,2,4,8,16} (quick) / {1,2,4,8,16,32} x 2 namespace layouts, + k=64 (thorough), app version V2 (and V7 for k<=2): from_ods must succeed, first quadrant == input, all cells == harness extension (Q4 from Q2 by columns), and for every row and every column every erasure pattern keeping exactly k of 2k shares — all C(2k,k) patterns for 2k<=8 (quick) / 2k<=16 (thorough), beyond that left/right halves, even/odd, every contiguous k-window, every 'k-1 from the left + one from the right half' — reconstructs to the full axis. \
-B: malformed inputs of from_ods (original-square level) and new (extended level), each must be Err: share counts that are not squares, squares of non-power-of-two width, empty input, width above the app version's bound, one share (every position; widths <=4 quick, <=8 thorough) or all shares of length 0/64/511/513, every adjacent pair of different namespaces swapped along a row / a column plus the two explicit 2x2 grids (row-only / column-only disorder), share version 1 below app V3 (every position; the same input must be accepted from V3 on). \
+B: malformed inputs of from_ods (original-square level) and new (extended level), each must be Err: share counts that are not squares, squares of non-power-of-two width, empty input, width above the app version's bound, one share (every position; widths <=4 quick, <=8 thorough) or all shares of length 0/64/511/513, every adjacent pair of different namespaces swapped along a row / a column plus explicit grids whose disorder is visible only along a row / only along a column: the 2x2 ones and, for k=4 and 8, every single-cell dip at every position (below the cell directly above / left of it but not below the first cell of that column / row), share version 1 below app V3 (every position; the same input must be accepted from V3 on). \
 distinct = (input description); non-trivial = A: reconstruction from a pattern that drops at least one original share, B: inputs whose shape passes the first size check";
 
 fn ver(v: u64) -> AppVersion {
@@ -231,6 +231,40 @@ fn malformed_cases(tier: Tier) -> Vec<Malformed> {
             let mut m = mk(target, w, 0, Mutn::None, 2, ok);
             m.grid = Some(grid);
             out.push(m);
+        }
+        // k x k grids (k = 4, 8) with a SINGLE cell out of order, visible only along its
+        // column (the cell is below the one directly above it but not below the top of the
+        // column from row 2 on, and its row stays sorted) or only along its row (mirror
+        // image): every cell position.  The untouched grid must be accepted.
+        for k in [4usize, 8] {
+            let w = if target == "new" { 2 * k } else { k };
+            // column family: ns(r,c) = 2r + 20c, cell (r,c) lowered to 2r - 3 + 20c (r >= 1)
+            let col_base: Vec<u8> = (0..k * k).map(|i| (2 * (i / k) + 20 * (i % k)) as u8 + 3).collect();
+            // row family: ns(r,c) = 20r + 2c, cell (r,c) lowered to 20r + 2c - 3 (c >= 1)
+            let row_base: Vec<u8> = (0..k * k).map(|i| (20 * (i / k) + 2 * (i % k)) as u8 + 3).collect();
+            for base in [&col_base, &row_base] {
+                let mut m = mk(target, w, 0, Mutn::None, 2, true);
+                m.grid = Some(base.clone());
+                out.push(m);
+            }
+            for r in 0..k {
+                for c in 0..k {
+                    if r >= 1 {
+                        let mut g = col_base.clone();
+                        g[r * k + c] -= 3;
+                        let mut m = mk(target, w, 0, Mutn::None, 2, false);
+                        m.grid = Some(g);
+                        out.push(m);
+                    }
+                    if c >= 1 {
+                        let mut g = row_base.clone();
+                        g[r * k + c] -= 3;
+                        let mut m = mk(target, w, 0, Mutn::None, 2, false);
+                        m.grid = Some(g);
+                        out.push(m);
+                    }
+                }
+            }
         }
     }
     out
